@@ -84,7 +84,8 @@ LEVEL = {
     "C06": dict(
         text="Partial. Theorems: the cepstrum <-> MLSA-coefficient maps are mutually inverse for every alpha; with zero coefficients the Pade cascade is the "
              "identity in every state; shifting c0 by delta shifts only b0 and scales the filter input by exp(delta); the cascade is homogeneous in its input, so the "
-             "response scales with exp(c0). The analytic clause (0.01 neper against "
+             "response scales with exp(c0); with frozen coefficients the filter is linear and time-invariant, so its output on any excitation is the convolution "
+             "of the excitation with the response to one pulse (response_is_convolution) — which is why measuring one pulse response decides the filter. The analytic clause (0.01 neper against "
              "sum c_m cos(m w~)) is a bound on the Pade(5) error of a concrete rational function and is decided on every run by the DFT of the implementation's "
              "pulse response through the public Vocoder; the Lean vocoder model is bit-identical to the implementation on all executed runs.",
         note="Trusted: Lean kernel; axioms ⊆ {propext, Classical.choice, Quot.sound}; spectral accuracy is test-level (no complex analysis / IEEE semantics in the theorems).",
@@ -92,7 +93,8 @@ LEVEL = {
     "C13": dict(
         text="Partial. Theorems: repaired lsp2lpc ignores the gain element (the pinned code used it as a frequency: fix 3dba546); gc2gc with equal gamma truncates; "
              "ignorm inverts gnorm; MGLSA is the stage-fold cascade; gamma = -1/stage; lsp2lpc returns exactly the coefficients of (P(z)+Q(z))/2 with P, Q the products of the LSP "
-             "quadratic factors times (1 -/+ z^-1) (lsp2lpc_poly, every order, odd and even); well-separated frequencies pass the stability check unchanged. The magnitude formula K/|A|^s (0.001 neper) and decay are decided on every run "
+             "quadratic factors times (1 -/+ z^-1) (lsp2lpc_poly, every order, odd and even); well-separated frequencies pass the stability check unchanged; the cascade of stage sections is linear and time-invariant, output = excitation convolved "
+             "with the pulse response. The magnitude formula K/|A|^s (0.001 neper) and decay are decided on every run "
              "by DFT of the implementation's pulse response against A(z) built by polynomial multiplication; model bit-identical to the implementation.",
         note="Trusted: as C06; the link from (P+Q)/2 to the magnitude response K/|A|^s involves exp/cos of real numbers and is checked numerically (DFT), not proved.",
     ),
@@ -139,9 +141,10 @@ LEVEL = {
     "C15": dict(
         text="Theorems: h = 0 is the identity; apply_additional_half_tone maps every state's static mean to clamp(m + h*ln2/12) and changes nothing else; the voicing "
              "mask, the durations and every stream other than log-F0 are independent of h in the pipeline model. Trajectory level (trajectory_shift): adding h to every static mean adds exactly h to every frame "
-             "of the maximum-likelihood trajectory when the dynamic windows sum to zero (uniqueness of the normal-equation solution). That log-F0 moves by exactly "
-             "h*ln2/12 also through the GV iteration is decided on every run through the hook (two runs per case, 1e-6), as is the wiring in Engine::generator.",
-        note="Trusted: as C11; shift-equivariance of MLPG proved, of the GV iteration tested.",
+             "of the maximum-likelihood trajectory when the dynamic windows sum to zero (uniqueness of the normal-equation solution), and the same through the whole GV stage — conv_gv and the five Newton-like steps with "
+             "their adaptive step size (trajectory_shift_with_gv: the objective changes by an iterate-independent constant, so the step decisions agree). "
+             "That log-F0 of the real engine moves by exactly h*ln2/12 is additionally decided on every run through the hook (two runs per case, 1e-6), as is the wiring in Engine::generator.",
+        note="Trusted: as C11; shift-equivariance of MLPG and of the GV iteration proved over an ordered field; the f64 implementation is compared at 1e-6.",
     ),
     "C17": dict(
         text="Theorems over the line-grammar model: splitn yields 1..3 pieces so the expect cannot fire; loading is a total function into ok|error (no panic outcome "
